@@ -268,6 +268,12 @@ Theorem C20_graph_acyclic_terminates : forall h v,
 Proof. exact gsizeof_ordered. Qed.
 Print Assumptions C20_graph_acyclic_terminates.
 
+(** outside the domain: on a cyclic value (a struct holding a pointer to itself) the recursion
+    exhausts every fuel — the real code overflows its stack; C20 is about acyclic values *)
+Theorem C20_graph_cycle_diverges : forall fuel, gsizeof [GStruct [GRef 0]] fuel (GRef 0) = None.
+Proof. exact self_loop_diverges. Qed.
+Print Assumptions C20_graph_cycle_diverges.
+
 (** non-vacuity: a diamond (two struct cells sharing a string cell) reached twice = 4 copies of the string;
     a cell that points to itself is not ordered and exhausts any fuel *)
 Example C20_graph_nonvacuous :
